@@ -71,7 +71,7 @@ def check(pid, tier):
         violations.append((pid, f"connect trace rejected: {verdict} end={traces[k]['end']}", path))
     # connect phase of whole compositions (late starts, adapters, initial pulls)
     cfgs = (tlc.emit("SchedEmit", {"FAMILY": "pair"}) + tlc.emit("SchedEmit", {"FAMILY": "chain3p"})
-            + tlc.emit("SchedEmit", {"FAMILY": "fanoutshared"}))
+            + tlc.emit("SchedEmit", {"FAMILY": "fanoutshared"}) + tlc.emit("SchedEmit", {"FAMILY": "trigger"}))
     cap = 3000 if tier == "quick" else 30000
     if len(cfgs) > cap:
         cfgs = rng.sample(cfgs, cap)
